@@ -188,6 +188,10 @@ pub fn write(book: &LBook, fmt: Fmt, rng: &mut Rng) -> Vec<u8> {
             // keep to the encodings every fixed tree reads (prefix / relationship-prefix knobs belong to C01)
             l.prefix = String::new();
             l.rel_prefix = "r".into();
+            l.rel_decl = xlsxw::RelDecl::Workbook;
+            // rows out of ascending order (schema-valid; what a read must not depend on) — not with shared-formula
+            // groups, whose members are given in document order
+            l.shuffle_rows = rng.chance(1, 5) && book.sheets.iter().all(|s| s.shared.is_empty());
             b.build(&l).bytes
         }
         Fmt::Xlsb => {
